@@ -7,6 +7,16 @@ application reload with notifications arriving while GetMdib is in flight).  Aft
 monitors check: MdibVersion and every per-handle version non-decreasing, stale / duplicated deliveries change nothing, lookups
 agree with a scan, every state the consumer holds equals what the provider published for (handle, version), no update while the
 sequence / instance id differs, and exact mirror after reload + in-order delivery.
+
+Round 4: (a) the INITIAL load (init_mdib) of every history happens under traffic (reports older than the snapshot and newer ones arrive
+while GetMdib is in flight); (b) a report that carries another SequenceId / InstanceId than the consumer MDIB currently has - in
+particular a late report of the provider's PREVIOUS sequence that arrives after the application has reloaded - is an id change: it must
+change nothing and nothing may change until the next reload; (c) two reports are delivered by two threads (one http server thread per
+subscription connection of the synchronous dispatcher) with the second one scheduled at a chosen point inside the first one
+(vf/c06_race.py): a reader of the public MdibVersion must never see it decrease; (d) some histories use the library's default deferred
+dispatcher (queue + worker thread) instead of the synchronous one; (e) the delayed last report of the old sequence passes the pre-check,
+the application reloads before the report's thread gets the MDIB lock, then the thread continues: the report must change nothing;
+(f) a handle comes back with a descriptor of another type while the description modification reports are lost.
 """
 from __future__ import annotations
 
@@ -15,10 +25,43 @@ import threading
 
 from .. import core, mdibops
 from ..history import History, canon, first_difference, snap, snap_equal, tolerant_equal, versions_of
+from ..c06_race import RaceCtl
 from ..loopback import Respond
 from ..mdibharness import MDIB_FILES, World
 
+from sdc11073.mdib.consumermdib import ConsumerMdib  # noqa: E402  (after vf.core has put the tree under test on sys.path)
+
 MODULE = 'vf.props.c06'
+
+
+def _loopback_compat():
+    """/repo HEAD's asynchronous SOAP client (968f31b) reads a response with ``await resp.read()`` and ``resp.headers.getall(...)``; the
+    shared loop-back fake of the aiohttp response (vf/loopback.py, not a module of this property) only offers ``text()`` and keeps the
+    REQUEST headers in ``headers``: every notification of an async subscription manager then counts as a delivery failure and the provider
+    drops the subscription.  Until vf/loopback.py follows, the two members are added here (skipped as soon as the fake has ``read``)."""
+    from .. import loopback
+    cls = getattr(loopback, '_FakeAioResponse', None)
+    if cls is None or hasattr(cls, 'read'):
+        return
+
+    class _ResponseHeaders(dict):
+        def getall(self, name, default=None):
+            return [self[name]] if name in self else ([] if default is None else default)
+
+    orig_enter = cls.__aenter__
+
+    async def read(self):
+        return self._body
+
+    async def aenter(self):
+        await orig_enter(self)
+        self.headers = _ResponseHeaders()   # the loop-back servers answer without Content-Encoding
+        return self
+    cls.read = read
+    cls.__aenter__ = aenter
+
+
+_loopback_compat()
 RX_VERSION = re.compile(rb'MdibVersion="(\d+)"')
 RX_SEQ = re.compile(rb'SequenceId="([^"]*)"')
 RX_INST = re.compile(rb'InstanceId="(\d+)"')
@@ -45,12 +88,15 @@ class Note:
 class Net:
     """captures the notifications addressed to the consumer; delivers them on request."""
 
-    def __init__(self, world, consumer):
+    def __init__(self, world, consumer, ctx=None):
         self.world = world
+        self.ctx = ctx
+        self.queue = getattr(getattr(consumer, '_services_dispatcher', None), '_queue', None)  # deferred dispatcher only
         self.netloc = f'127.0.0.1:{consumer.vf_server.server_port}'
         self.pending: list[Note] = []
         self.all: list[Note] = []
         self.capture = True
+        self.subscriptions = []
         world.network.policy = self._policy
 
     def _policy(self, entry):
@@ -68,13 +114,35 @@ class Net:
         self.pending.append(note)
         return Respond(200, 'OK', b'', name='captured')
 
-    def deliver(self, note: Note):
+    def deliver(self, note: Note, settle=True):
         note.delivered += 1
         try:
             e = self.world.network.transmit(self.netloc, 'POST', note.path, note.headers, note.raw, bypass_policy=True, extra={'note': note.n})
             return e.status
         except Exception as ex:  # noqa: BLE001
             return repr(ex)
+        finally:
+            if settle:
+                self.settle()
+
+    def subscriptions_alive(self) -> bool:
+        """the provider still sends to the consumer; if not (wall-clock expiry, see _pin_subscriptions) a mirror comparison decides nothing"""
+        ok = bool(self.subscriptions) and all(s.is_valid for s in self.subscriptions)
+        if not ok and self.ctx is not None:
+            self.ctx.not_decided('the provider dropped a subscription of the consumer (expired / delivery failure): reports are missing '
+                                 'for a reason outside the consumer MDIB')
+        return ok
+
+    def settle(self):
+        """deferred dispatcher: wait until its worker thread has processed everything that was queued so far (FIFO sentinel)."""
+        if self.queue is None:
+            return
+        done = threading.Event()
+        self.queue.put((lambda _request: done.set(), None, 'vf-settle'))
+        if not done.wait(120) and self.ctx is not None:
+            self.ctx.not_decided('worker thread of the deferred dispatcher did not drain its queue')
+        elif self.ctx is not None:
+            self.ctx.count('deferred.settled')
 
 
 class Monitor:
@@ -93,6 +161,21 @@ class Monitor:
         self.high = {}
         self.prev = snap(self.cm)
         self.frozen = False
+
+    def after_race(self, res: dict, first: Note, second: Note, select):
+        """two deliveries by two threads: the series of MdibVersion values a reader saw at the scheduling points must not decrease."""
+        ctx = self.ctx
+        series = [v for v in res['versions'] if v is not None]
+        ctx.count('race.version_reads', len(series))
+        for a, b in zip(series, series[1:]):
+            if b < a:
+                ctx.witness('regress.mdib_version_concurrent', 'consumer MdibVersion decreased while two reports were processed by two threads',
+                            self._detail(series=series[:40], first=[first.kind, first.version], second=[second.kind, second.version],
+                                         preempted_at=list(select), second_blocked_on=res['second_blocked_on'][:3]))
+                break
+        if res['errors'] or res['watchdog']:
+            ctx.not_decided(f'race harness: errors={res["errors"][:2]} watchdog={res["watchdog"]}')
+        return self.after('race', second, None)
 
     def after(self, action: str, note: Note | None, expect_unchanged: str | None):
         ctx, cm = self.ctx, self.cm
@@ -135,6 +218,36 @@ class Monitor:
         return bool(changed)
 
 
+def _pin_subscriptions(world):
+    """The consumer renews its 60 s subscriptions from a wall-clock thread.  On a loaded machine, or while the harness holds a GetMdib
+    response back (the renew waits for the same SOAP client), a renew comes too late, the provider silently stops sending and the consumer
+    'misses' everything from then on - an effect of wall-clock time, not of the consumer MDIB (seen as sporadic mirror.* witnesses on the
+    unchanged tree at load > 40).  The provider-side subscriptions of this world are therefore made non-expiring."""
+    subs = []
+    for mgr in world.provider._subscriptions_managers.values():
+        for sub in list(mgr._subscriptions.objects):
+            sub._expire_seconds = 10 ** 9
+            sub.renew = lambda expires=None: None
+            subs.append(sub)
+    return subs
+
+
+def _create_string_metric(handle, parent):
+    """a provider transaction mdibops has no shape for: a new StringMetricDescriptor (+ state) under ``parent``"""
+    def create_string_metric(mdib, rng):
+        from sdc11073.xml_types import pm_qnames as pm
+        from sdc11073.xml_types import pm_types
+        cls = mdib.data_model.get_descriptor_container_class(pm.StringMetricDescriptor)
+        d = cls(handle=handle, parent_handle=parent)
+        d.Type = pm_types.CodedValue(str(rng.randrange(100, 200000)))
+        d.Unit = pm_types.CodedValue(str(rng.randrange(100, 200000)))
+        d.MetricCategory = pm_types.MetricCategory.SETTING
+        d.MetricAvailability = pm_types.MetricAvailability.INTERMITTENT
+        with mdib.descriptor_transaction() as mgr:
+            mgr.add_descriptor(d, state_container=mdib.data_model.mk_state_container(d))
+    return create_string_metric
+
+
 def w_schedules(ctx: core.Ctx, arg):
     rng = ctx.rng('sched', arg['i'])
     for hno in range(arg['n']):
@@ -142,10 +255,14 @@ def w_schedules(ctx: core.Ctx, arg):
         world = World(mdib_file, role_provider=False, async_mgr=(hno % 3 == 1), contextstates_in_getmdib=((arg['i'] + hno) % 4 != 3))
         mdib = world.mdib
         hist = History(mdib)
-        consumer, cm = world.add_consumer(with_mdib=True)
-        net = Net(world, consumer)
-        label = {'mdib_file': mdib_file, 'history': [arg['i'], hno]}
-        mon = Monitor(ctx, cm, hist, label)
+        # the library's default dispatcher (queue + one worker thread) instead of the synchronous one (a thread per connection)
+        deferred = (arg['i'] + hno) % 8 == 5
+        consumer, _ = world.add_consumer(with_mdib=False, sync_dispatch=not deferred)
+        net = Net(world, consumer, ctx)
+        net.subscriptions = _pin_subscriptions(world)
+        ctx.count('harness.subscriptions_pinned', len(net.subscriptions))
+        ctx.count('history.deferred_dispatcher' if deferred else 'history.sync_dispatcher')
+        label = {'mdib_file': mdib_file, 'history': [arg['i'], hno], 'dispatcher': 'deferred' if deferred else 'sync'}
         memo = {}
         weights = {k: v for k, v in mdibops.DEFAULT_WEIGHTS.items() if k not in ('abort', 'reject', 'empty', 'unget')}
         held: list[tuple[int, Note]] = []
@@ -157,20 +274,64 @@ def w_schedules(ctx: core.Ctx, arg):
         # directed script (odd jobs, first history): a descriptor is created (all reports of that transaction lost), its state is updated, it is
         # deleted and created again; the report of the second creation arrives twice
         script = []
-        if hno == 0 and arg['i'] % 2 == 1 and mdibops.catalog(mdib)['channel']:
-            chan = mdibops.catalog(mdib)['channel'][0]
-            script = [({'op': 'descr_create', 'parent': chan, 'handle': 'c06x', 'with_state': True, 'iface': 'classic'}, 'drop_all'),
+
+        def mk_c06x_script():
+            """built when it starts (step 6): on a channel the provider MDIB contains THEN (a burst may have deleted a lot before)"""
+            chans = mdibops.catalog(mdib)['channel']
+            if not chans:
+                return []
+            chan = chans[0]
+            return [({'op': 'descr_create', 'parent': chan, 'handle': 'c06x', 'with_state': True, 'iface': 'classic'}, 'drop_all'),
                       ({'op': 'metric', 'handles': ['c06x'], 'iface': 'classic'}, 'in_order'),
                       ({'op': 'descr_delete', 'handle': 'c06x', 'iface': 'classic'}, 'in_order'),
                       ({'op': 'descr_create', 'parent': chan, 'handle': 'c06x', 'with_state': True, 'recreate': True, 'iface': 'entity'}, 'dup_all'),
-                      ({'op': 'metric', 'handles': ['c06x'], 'iface': 'entity'}, 'dup_all')]
+                      ({'op': 'metric', 'handles': ['c06x'], 'iface': 'entity'}, 'dup_all'),
+                      # ... and the handle comes back as a descriptor of ANOTHER type while both description modification reports are lost:
+                      # the consumer still holds the numeric state when the first report with the string state arrives (twice)
+                      ({'op': 'descr_delete', 'handle': 'c06x', 'iface': 'classic'}, 'drop_all'),
+                      (_create_string_metric('c06x', chan), 'drop_all'),
+                      ({'op': 'metric', 'handles': ['c06x'], 'iface': 'classic', 'count': 'script.state_of_other_type_reports'}, 'dup_all')]
+        if hno == 0 and arg['i'] % 2 == 1:
+            script = [('c06x', None)]
+        if hno == 1:
+            # directed races (every run): report of kind K is inside the consumer (thread B), the report of the next transaction arrives
+            # on another connection (thread A) exactly when B has passed the MdibVersion gate / has written the version / is about to
+            # take / has released the MDIB lock
+            points = [('gate', 'accept', 0), ('write', 'after', 0), ('write', 'before', 0), ('before', 'mdib', 0), ('released', 'mdib', 0),
+                      ('acquired', 'mdib', 0)]
+            kinds = ('rt', 'metric', 'alert', 'component', 'operational', 'context', 'descr_update')
+            script += [({'race_first': k}, ('race', points[0])) for k in kinds]
+            script += [({'race_first': k}, ('race', points[1 + (j + arg['i']) % (len(points) - 1)])) for j, k in enumerate(kinds)]
         forced_ops = []
+
+        def mk_race_ops(kind, step):
+            """two transactions on what the provider MDIB contains NOW: the first one produces a report of the wanted kind"""
+            cat = mdibops.catalog(mdib)
+            second = next(({'op': k, 'handles': cat[k][:1], 'iface': 'classic'} for k in ('metric', 'alert', 'component', 'operational') if cat[k]), None)
+            if kind == 'context' and cat['context']:
+                first = {'op': 'context', 'sub': 'new', 'descr': cat['context'][0], 'new_handle': f'c06race_ctx{step}', 'iface': 'classic'}
+            elif kind == 'descr_update' and (cat['metric'] or cat['component']):
+                first = {'op': 'descr_update', 'handles': (cat['metric'] or cat['component'])[-1:], 'iface': 'classic'}
+            else:
+                k = next((k for k in (kind, 'rt', 'metric', 'alert', 'component', 'operational') if cat.get(k)), None)
+                first = {'op': k, 'handles': cat[k][-1:], 'iface': 'classic'} if k else None
+            return [first, second] if first and second else []
 
         def commit_some(k):
             for _ in range(k):
                 if forced_ops:
-                    op = dict(forced_ops.pop(0), seed=rng.randrange(1 << 30))
-                    mdibops.apply_op(mdib, op, memo)
+                    op = forced_ops.pop(0)
+                    if callable(op):
+                        try:
+                            op(mdib, rng)
+                        except Exception:  # noqa: BLE001  (e.g. the parent was deleted meanwhile by a random transaction: nothing committed)
+                            ctx.count('provider.scripted_transactions_failed')
+                        op = {'op': getattr(op, '__name__', 'custom')}
+                    else:
+                        op = dict(op, seed=rng.randrange(1 << 30))
+                        ap = mdibops.apply_op(mdib, op, memo)
+                        if op.get('count') and ap.outcome == 'ok':
+                            ctx.count(op['count'])
                     hist.record()
                     hist.problems.clear()
                     ops_kinds.append(op['op'])
@@ -185,10 +346,20 @@ def w_schedules(ctx: core.Ctx, arg):
                 ctx.count('provider.transactions')
 
         def deliver(note, action):
+            nonlocal id_changed
             stale = (cm.mdib_version is not None and note.version < cm.mdib_version and note.seq_id == cm.sequence_id)
             dup = note.delivered > 0
             expect = None
-            if mon.frozen or (note.seq_id != cm.sequence_id or note.inst != cm.instance_id):
+            if note.seq_id != cm.sequence_id or note.inst != cm.instance_id:
+                # the report carries another SequenceId / InstanceId than the consumer MDIB: that IS a change of SequenceId / InstanceId (no
+                # matter whether it is the provider's new or - late, after a reload - its previous one): it must not be applied and nothing
+                # may be applied until the application reloads
+                if not mon.frozen:
+                    ctx.count('deliver.foreign_ids_on_synced_consumer')
+                mon.frozen = True
+                id_changed = True
+                ctx.count('deliver.foreign_ids')
+            elif mon.frozen:
                 expect = None  # judged by the frozen rule
             elif stale:
                 expect = f'stale.{note.kind}'
@@ -204,25 +375,117 @@ def w_schedules(ctx: core.Ctx, arg):
                 ctx.count('deliver.accepted_without_change')
             return status
 
+        # ---- initial load under traffic: reports committed before the consumer MDIB exists reach the consumer partly before it is bound
+        # (nobody listens), partly while GetMdib is in flight (older than the snapshot: to be ignored), and newer ones arrive in flight too
+        commit_some(2)
+        if net.pending:
+            n0 = net.pending.pop(0)
+            net.deliver(n0)
+            ctx.count('initial_load.reports_before_bind')
+        cm = ConsumerMdib(consumer)
+        ctl = cm.vf_ctl = RaceCtl(cm)
+        mon = Monitor(ctx, cm, hist, label)
+        ctx.count('initial_load.reports_older_than_snapshot_in_flight', len(net.pending))
+        _reload(ctx, world, net, cm, mon, hist, rng, commit_some, held, True, label, initial=True)
+
+        def foreign_notes():
+            return [n for n in net.all if n.seq_id != cm.sequence_id or n.inst != cm.instance_id]
+
+        def deliver_late_foreign(k, action):
+            """late reports of a sequence / instance the consumer MDIB does NOT have now (after a reload: the provider's previous one)"""
+            cand = sorted(foreign_notes(), key=lambda n: (n.version, n.n))
+            not_older = [n for n in cand if n.version >= (cm.mdib_version or 0)]
+            for n in (not_older[:k] or cand[-k:]):
+                if cm.mdib_version is not None and n.version >= cm.mdib_version and not mon.frozen:
+                    ctx.count('deliver.late_foreign_not_older')   # the MdibVersion gate alone would let it pass
+                deliver(n, action)
+
+        def race(first, second, select, directed_point=None):
+            if deferred or mon.frozen or any(n.seq_id != cm.sequence_id or n.inst != cm.instance_id for n in (first, second)):
+                deliver(first, 'in_order')
+                deliver(second, 'in_order')
+                return
+            res = ctl.race(lambda: net.deliver(first, settle=False), lambda: net.deliver(second, settle=False), select)
+            delivered_log.extend([first, second])
+            ctx.count('race.runs')
+            ctx.count('race.scheduling_points', res['points'])
+            if res['preempted']:
+                ctx.count('race.preempted')
+                ctx.count('race.second_blocked' if res['second_blocked_on'] else
+                          'race.second_completed_inside' if res['second_done_inside'] else 'race.second_other')
+                if directed_point:
+                    ctx.count(f'race.window.{directed_point}')
+                    ctx.count(f'race.window.{directed_point}.{first.kind}')
+            else:
+                ctx.count('race.point_not_reached')
+            ctx.case(('race', first.kind, second.kind, tuple(select) if select[0] != 'index' else ('index', select[1] // 8),
+                      res['preempted'], bool(res['second_blocked_on'])))
+            mon.after_race(res, first, second, select)
+
+        def prechecked_then_reload(note):
+            """The provider has restarted; the consumer MDIB is still in sync with the old sequence.  The delayed last report R of the old
+            sequence arrives and passes the pre-check (ids equal, state initialized); before its thread gets the MDIB lock the application
+            reloads (it may do that at any time; here the scheduler runs the complete reload_all in another thread at that point); then
+            R's thread continues.  R carries another SequenceId / InstanceId than the reloaded MDIB: it must change nothing."""
+            nonlocal id_changed
+
+            def app_reload():
+                _reload(ctx, world, net, cm, mon, hist, rng, commit_some, held, False, label)
+            res = ctl.race(lambda: net.deliver(note, settle=False), app_reload, ('before', 'mdib', 0))
+            delivered_log.append(note)
+            ctx.count('race.reload.runs')
+            if res['errors'] or res['watchdog']:
+                ctx.not_decided(f'reload race harness: errors={res["errors"][:2]} watchdog={res["watchdog"]}')
+            reloaded_inside = res['preempted'] and res['second_done_inside']
+            foreign = note.seq_id != cm.sequence_id or note.inst != cm.instance_id
+            if reloaded_inside:
+                ctx.count('race.reload.report_prechecked_before_reload_continues_after')
+                ctx.case(('race.reload', note.kind, foreign))
+                changed = snap_equal(mon.prev, snap(cm))
+                if changed:
+                    ctx.witness('idchange.prechecked_report_applied_after_reload',
+                                'a report of the previous SequenceId / InstanceId that had passed the pre-check before the application reloaded was '
+                                'applied to the reloaded MDIB', mon._detail(diff=changed[:3], report=[note.kind, note.version, note.seq_id, note.inst]))
+            id_changed = False
+            mon.after('late_prechecked', note, None)
+
+        def split_for_race(batch):
+            """(reports before, first, second, rest): first / second = first report of two different transactions if there are two"""
+            if len(batch) < 2:
+                return batch, None, None, []
+            j = next((k for k in range(1, len(batch)) if batch[k].version != batch[0].version), 1)
+            return [], batch[0], batch[j], batch[1:j] + batch[j + 1:]
+
         for step in range(arg['len']):
             scripted = None
             if step >= 6 and script:      # after the prelude of the generator
+                if script[0][0] == 'c06x':
+                    script = mk_c06x_script() or [({'op': 'empty', 'kind': 'metric'}, 'in_order')]
                 forced, scripted = script.pop(0)
-                forced_ops.append(forced)
+                if isinstance(forced, dict) and 'race_first' in forced:
+                    forced = mk_race_ops(forced['race_first'], step)
+                if isinstance(scripted, tuple) and mon.frozen:
+                    # a directed race needs a consumer that accepts reports: the application reloads first
+                    _reload(ctx, world, net, cm, mon, hist, rng, commit_some, held, False, label)
+                    id_changed = False
+                forced_ops.extend(forced if isinstance(forced, list) else [forced])
+                for _ in range(len(forced) - 1 if isinstance(forced, list) else 0):
+                    commit_some(1)
             commit_some(rng.choice([1, 1, 1, 2, 3]))
             # release held-back notifications whose time has come
             for item in list(held):
-                if item[0] <= step:
+                if item[0] <= step and not isinstance(scripted, tuple):
                     held.remove(item)
                     deliver(item[1], 'release_held')
-            action = rng.choices(['in_order', 'drop', 'dup_now', 'dup_later', 'hold', 'swap', 'replay', 'restart', 'reload', 'reload_inflight'],
-                                 [10, 3, 3, 2, 3, 3, 2, 1 if not id_changed else 0, 1, 2])[0]
+            action = rng.choices(['in_order', 'drop', 'dup_now', 'dup_later', 'hold', 'swap', 'replay', 'restart', 'reload', 'reload_inflight',
+                                  'race', 'late_foreign'],
+                                 [10, 3, 3, 2, 3, 3, 2, 1 if not id_changed else 0, 1, 2, 3, 2])[0]
             if id_changed and rng.random() < 0.3:
                 action = 'reload_inflight'   # the application reacts to the id change while late reports of the old sequence are still under way
             directed = hno == 0 and arg['i'] % 2 == 0   # every run: restart (new ids, LOWER version) at step 3, reload with late old reports at 4
             if directed and step == 3 and not id_changed:
                 action = 'restart'
-            if directed and step == 4 and id_changed:
+            if directed and step == 4:
                 action = 'reload_inflight'
             batch, net.pending = net.pending, []
             if scripted == 'drop_all':
@@ -237,6 +500,36 @@ def w_schedules(ctx: core.Ctx, arg):
                 continue
             if scripted == 'in_order':
                 action = 'in_order'
+            if isinstance(scripted, tuple) and scripted[0] == 'race':
+                before, first, second, rest = split_for_race(batch)
+                for n in before:
+                    deliver(n, 'in_order')
+                if first is not None:
+                    race(first, second, scripted[1], directed_point='.'.join(scripted[1][:2]))
+                for n in rest:
+                    deliver(n, 'in_order')
+                continue
+            if action == 'late_foreign':
+                for n in batch:
+                    deliver(n, 'in_order')
+                if not mon.frozen and foreign_notes():
+                    deliver_late_foreign(rng.randrange(1, 4), 'late_foreign')
+                continue
+            if action == 'race' and len(batch) < 2:
+                commit_some(1)
+                batch, net.pending = batch + net.pending, []
+            if action == 'race' and len(batch) >= 2:
+                j = rng.randrange(len(batch) - 1)
+                for n in batch[:j]:
+                    deliver(n, 'in_order')
+                select = (('index', rng.randrange(0, 64)) if rng.random() < 0.5 else
+                          rng.choice([('gate', 'accept'), ('gate', 'reject'), ('write', 'before'), ('write', 'after'), ('before', 'mdib'),
+                                      ('acquired', 'mdib'), ('released', 'mdib'), ('before', 'states'), ('released', 'states'),
+                                      ('before', 'context_states'), ('before', 'descriptions')]) + (rng.choice([0, 0, 0, 1, 2]),))
+                race(batch[j], batch[j + 1], select)
+                for n in batch[j + 2:]:
+                    deliver(n, 'in_order')
+                continue
             if action == 'in_order' or not batch:
                 for n in batch:
                     deliver(n, 'in_order')
@@ -278,6 +571,14 @@ def w_schedules(ctx: core.Ctx, arg):
                 for n in window:
                     deliver(n, 'replay')
             elif action == 'restart':
+                late_prechecked = None
+                if directed and step == 3:
+                    # the old provider instance has run for a while: its MdibVersion is well above what the restarted one reaches soon
+                    for _ in range(12):
+                        commit_some(1)
+                    batch, net.pending = batch + net.pending, []
+                    if (arg['i'] // 2) % 2 == 0 and not deferred and len(batch) > 1:
+                        late_prechecked = batch.pop()     # the last report of the old instance is delayed by the network
                 for n in batch:
                     deliver(n, 'in_order')
                 which = rng.choice(['sequence', 'instance', 'both'])
@@ -290,7 +591,9 @@ def w_schedules(ctx: core.Ctx, arg):
                 vmode = rng.choice(['continue', 'lower', 'higher'])
                 if directed and step == 3:
                     vmode = 'lower'
-                if vmode == 'lower':
+                if vmode == 'lower' and directed and step == 3:
+                    mdib.mdib_version = 0        # a real restart: the MdibVersion counter starts again
+                elif vmode == 'lower':
                     mdib.mdib_version = max(0, mdib.mdib_version - rng.randrange(1, 5))
                 elif vmode == 'higher':
                     mdib.mdib_version += rng.randrange(1, 50)
@@ -300,6 +603,8 @@ def w_schedules(ctx: core.Ctx, arg):
                 id_changed = True
                 mon.frozen = True
                 ctx.count(f'restart.{which}.{vmode}')
+                if late_prechecked is not None:
+                    prechecked_then_reload(late_prechecked)
             elif action in ('reload', 'reload_inflight'):
                 for n in batch:
                     if rng.random() < 0.7:
@@ -311,6 +616,10 @@ def w_schedules(ctx: core.Ctx, arg):
                         late_old=[n for n in delivered_log[-8:] if n.seq_id != mdib.sequence_id or n.inst != mdib.instance_id], burst=burst,
                         force_late=directed and step == 4)
                 id_changed = False
+                if directed and step == 4:
+                    # ... and THEN (the application has reloaded, the consumer mirrors the restarted provider) further delayed reports of the
+                    # provider's previous sequence / instance arrive, with MdibVersion not lower than the freshly loaded one
+                    deliver_late_foreign(3, 'late_foreign')
         # final: reload, deliver the rest in order -> exact mirror
         _reload(ctx, world, net, cm, mon, hist, rng, commit_some, held, False, label)
         commit_some(2)
@@ -319,6 +628,8 @@ def w_schedules(ctx: core.Ctx, arg):
             deliver(n, 'final_in_order')
         diffs = snap_equal(hist.last, snap(cm))
         ctx.count('mirror.final_comparisons')
+        if diffs and not net.subscriptions_alive():
+            diffs = []
         if diffs:
             ctx.witness('mirror.after_reload', 'after reload + in-order delivery the consumer is not a mirror of the provider',
                         {**label, 'diff': diffs[:4], 'recent_steps': mon.steps[-8:]})
@@ -328,8 +639,11 @@ def w_schedules(ctx: core.Ctx, arg):
         world.stop()
 
 
-def _reload(ctx, world, net, cm, mon, hist, rng, commit_some, held, inflight, label, late_old=(), burst=False, force_late=False):
-    """application reload; optionally notifications arrive while the GetMdib response is in flight."""
+def _reload(ctx, world, net, cm, mon, hist, rng, commit_some, held, inflight, label, late_old=(), burst=False, force_late=False,
+            initial=False):
+    """application reload (initial=True: the initial load, init_mdib); optionally notifications arrive while the GetMdib response is in
+    flight."""
+    ctl = getattr(cm, 'vf_ctl', None)
     injected = {'GetMdib': False, 'GetContextStates': False}
 
     def observer(entry):
@@ -361,7 +675,8 @@ def _reload(ctx, world, net, cm, mon, hist, rng, commit_some, held, inflight, la
 
         def run():
             for n in older + to_send:
-                net.deliver(n)
+                net.deliver(n, settle=False)
+            net.settle()   # (deferred dispatcher: the reports are buffered by its worker thread before the response gets through)
         th = threading.Thread(target=run, daemon=True)
         th.start()
         th.join(60)
@@ -387,12 +702,21 @@ def _reload(ctx, world, net, cm, mon, hist, rng, commit_some, held, inflight, la
                 batch, net.pending = net.pending, []
 
                 def run():
-                    for n in batch:
-                        net.deliver(n)
+                    try:
+                        for n in batch:
+                            net.deliver(n, settle=False)
+                    finally:
+                        settled.set()
                 th = threading.Thread(target=run, daemon=True)
                 late_threads.append(th)
+                # correct code: the thread (deferred dispatcher: its worker) now waits for the MDIB lock held by reload_all - the lock
+                # proxy reports that it is about to block -; it is joined afterwards.  The time-out is only a fall-back.
+                settled = ctl.watch_thread(th) if (ctl is not None and net.queue is None) else threading.Event()
                 th.start()
-                th.join(0.3)  # correct code: the thread now waits for the MDIB lock held by reload_all; it is joined afterwards
+                if settled.wait(0.3 if ctl is None or net.queue is not None else 5):
+                    ctx.count('reload.buffer_lock_release_settled')
+                if ctl is not None:
+                    ctl.unwatch(th)
                 ctx.count('reload.buffer_lock_release_injections')
 
         def __enter__(self):
@@ -403,7 +727,10 @@ def _reload(ctx, world, net, cm, mon, hist, rng, commit_some, held, inflight, la
             self.release()
     cm._buffered_notifications_lock = BufferLockProxy()
     try:
-        cm.reload_all()
+        if initial:
+            cm.init_mdib()
+        else:
+            cm.reload_all()
     finally:
         cm._buffered_notifications_lock = real_lock
         for th in late_threads:
@@ -412,7 +739,8 @@ def _reload(ctx, world, net, cm, mon, hist, rng, commit_some, held, inflight, la
                 ctx.not_decided('late delivery thread blocked')
         if inflight:
             world.network.observers.remove(observer)
-    ctx.count('reload.inflight' if inflight else 'reload.plain')
+        net.settle()
+    ctx.count('initial_load.inflight' if initial else 'reload.inflight' if inflight else 'reload.plain')
     mon.rebase()
     mon.steps.append(['reload_inflight' if inflight else 'reload', None, cm.mdib_version])
     # what the consumer holds now must be published content
@@ -424,16 +752,22 @@ def _reload(ctx, world, net, cm, mon, hist, rng, commit_some, held, inflight, la
         mon.after('post_reload_in_order', n, None)
     diffs = snap_equal(hist.last, snap(cm))
     ctx.count('mirror.reload_comparisons')
+    if diffs and not net.subscriptions_alive():
+        diffs = []
     if diffs:
-        ctx.witness('mirror.after_reload_inflight' if inflight else 'mirror.after_reload',
-                    'after reload (+ notifications that arrived meanwhile) and in-order delivery the consumer is not a mirror of the provider',
+        ctx.witness('mirror.after_initial_load' if initial else 'mirror.after_reload_inflight' if inflight else 'mirror.after_reload',
+                    f'after {"the initial load" if initial else "reload"} (+ notifications that arrived meanwhile) and in-order delivery the '
+                    'consumer is not a mirror of the provider',
                     {**label, 'diff': diffs[:4], 'recent_steps': mon.steps[-8:]})
 
 
 def run(ctx: core.Ctx):
     ctx.rule = ('seeded provider histories x seeded delivery schedules (in order / drop / duplicate now+later / hold back and release / swap / '
                 'replay window / provider restart with new SequenceId and-or InstanceId and continued-lower-higher MdibVersion / reload / reload with '
-                'notifications in flight); distinct = sequence of delivery actions; every delivered or withheld message is one monitor evaluation')
+                'notifications in flight / late reports of the previous sequence after the reload / two reports delivered by two threads with '
+                'the second one scheduled at a chosen point inside the first one); the initial load of every history happens under traffic; '
+                'sync and deferred dispatcher; distinct = sequence of delivery actions (races: report kinds x preemption point x outcome); '
+                'every delivered or withheld message is one monitor evaluation')
     n_hist, length = (32, 30) if ctx.quick else (480, 120)
     jobs = [['w_schedules', {'i': k, 'n': n_hist // 16, 'len': length}] for k in range(16)]
     core.fanout(ctx, MODULE, 'dispatch', jobs, timeout=3000)
@@ -443,7 +777,15 @@ def run(ctx: core.Ctx):
     ctx.floor('provider.scripted_transactions', 10)
     for name, n in (('deliver.stale', 20), ('deliver.duplicate', 20), ('deliver.dropped', 10), ('deliver.swap', 20), ('reload.inflight', 5),
                     ('reload.inflight_notifications', 10), ('mirror.final_comparisons', 16),
-                    ('reload.buffer_lock_release_injections', 5)):
+                    ('reload.buffer_lock_release_injections', 5),
+                    # round 4
+                    ('harness.subscriptions_pinned', 32), ('initial_load.inflight', 16), ('initial_load.reports_older_than_snapshot_in_flight', 16),
+                    ('deliver.foreign_ids_on_synced_consumer', 8), ('deliver.late_foreign_not_older', 4),
+                    ('race.preempted', 60), ('race.second_blocked', 40), ('race.window.gate.accept', 40),
+                    ('race.window.gate.accept.WaveformStream', 4), ('race.window.gate.accept.EpisodicMetricReport', 4),
+                    ('race.window.gate.accept.DescriptionModificationReport', 4), ('race.window.write.before', 4),
+                    ('history.deferred_dispatcher', 2), ('deferred.settled', 100), ('script.state_of_other_type_reports', 4),
+                    ('race.reload.report_prechecked_before_reload_continues_after', 3)):
         ctx.floor(name, n)
 
 
